@@ -12,7 +12,7 @@ var logic string
 func Family() *rx.Family {
 	return &rx.Family{
 		Name: "s7", Path: "gno.land/r/verif/s7", Logic: logic,
-		Ops: "abchijkdefgl",
+		Ops: "acijbhkdefgl",
 		Desc: map[byte]string{'a': "sh.Grow(1)", 'b': "sq.S+=10", 'c': "sh2=sh", 'd': "sh=&Sq{fresh}", 'e': "sh=Val{..}", 'f': "sh.(*Sq).S*=2", 'g': "sh=nil",
 			'h': "sh,sh2=sh2,sh", 'i': "mv=sh.Grow", 'j': "mv(5)", 'k': "cn+=7", 'l': "anyv=cn / anyv=*sq"},
 		Reset: reset, Op: op, Dump: dump,
